@@ -148,8 +148,26 @@ def sd_np(m):
     return d
 
 
+_CLS_TENSORS = {}
+
+
+def _reset_class_state():
+    """tensors kept at class level (a flag shared by all instances, say) are state shared across layers: every history starts from
+    the values they had when first looked at, so that findings replay identically within one process"""
+    for cls in (T.ActNorm, T.BatchNorm):
+        for k, v in list(vars(cls).items()):
+            if torch.is_tensor(v):
+                key = (cls.__name__, k)
+                if key not in _CLS_TENSORS:
+                    _CLS_TENSORS[key] = v.detach().clone()
+                else:
+                    with torch.no_grad():
+                        v.copy_(_CLS_TENSORS[key])
+
+
 def run_history(subj, hist):
     """returns (violation (cell, symptom, msg) or None, info)"""
+    _reset_class_state()
     B = batches(subj)
     m = fresh(subj, 0)
     nested = subj.endswith("+nested")
@@ -168,6 +186,8 @@ def run_history(subj, hist):
                 root.eval()
             elif op == "saveload":
                 m2 = fresh(subj, 1 + i)
+                if subj.startswith("ActNorm") and bool(m2.initialized):
+                    return ("init", "a freshly constructed layer is already initialised", "%s: the instance just built for loading reports initialized=True (state shared between instances)" % where), info
                 root2 = T.CompositeTransform([m2]) if nested else m2
                 root2.load_state_dict(root.state_dict())
                 root2.train(root.training)  # the mode is not part of the state dict; the caller keeps it
